@@ -6,6 +6,8 @@ import BumpverVerif.Model.V2Patterns
 import BumpverVerif.Model.V2Version
 import BumpverVerif.Model.PatWf
 import BumpverVerif.Model.PepTree
+import BumpverVerif.Model.PepOfRecord
+import BumpverVerif.Model.Pep440
 open Lean
 namespace BV.Drv
 
@@ -139,9 +141,14 @@ def handleV2 : Handler := fun op j =>
         let reqStr := match formatVersion vi (convertToPep440 p) with
           | .ok s => s == q.render vi
           | .error _ => false
+        -- C15_version_parses_equal: the version string and the written text parse to the same PEP 440 version
+        let shaped := t.pepShaped && t.vok vi && pepReady vi && pepCoherent t vi
+        let same := match parsePep (q.render vi), parsePep (t.render vi), pepOfRecord q vi with
+          | some a, some b, some c => (pepKey a == pepKey b) && (pepKey a == pepKey c)
+          | _, _, _ => false
         Json.mkObj [("tokenized", Json.bool true), ("tie", Json.bool (pepTie p)), ("render_eq", Json.bool reqStr),
                     ("in_domain", Json.bool inDom), ("normal", Json.bool q.pepNormal),
-                    ("theorem_instance", Json.bool thm)])
+                    ("theorem_instance", Json.bool thm), ("shaped_domain", Json.bool shaped), ("same_version", Json.bool same)])
   | "parse" => some do
     let v ← getStr j "version"
     let p ← getStr j "pattern"
